@@ -537,6 +537,158 @@ pub fn run(tier: Tier) -> i32 {
             ctx.scope_done(name, items.len() as u64, t0, "");
         }
     }
+    // ---------------------------------------------------------------- encoders inside encoders: a source that produces each piece by
+    // running another encoder (a sink that packs each piece it is given) on the same thread - what a layered archive writer
+    // does. The outer call must return what it returns for a plain source, the inner calls what they return alone.
+    {
+        let name = "nested-encoders";
+        if ctx.may_start(name) {
+            use std::io::{self, BufRead, Read, Write};
+            let t0 = Instant::now();
+            type Enc = fn(&mut dyn BufRead, &mut Vec<u8>) -> io::Result<()>;
+            fn e_lzma(r: &mut dyn BufRead, w: &mut Vec<u8>) -> io::Result<()> {
+                let mut r = r;
+                lzma_rs::lzma_compress(&mut r, w)
+            }
+            fn e_lzma2(r: &mut dyn BufRead, w: &mut Vec<u8>) -> io::Result<()> {
+                let mut r = r;
+                lzma_rs::lzma2_compress(&mut r, w)
+            }
+            fn e_xz(r: &mut dyn BufRead, w: &mut Vec<u8>) -> io::Result<()> {
+                let mut r = r;
+                lzma_rs::xz_compress(&mut r, w)
+            }
+            let encs: [(&str, Enc); 3] = [("lzma_compress", e_lzma), ("lzma2_compress", e_lzma2), ("xz_compress", e_xz)];
+            struct NestRd<'a> {
+                data: &'a [u8],
+                pos: usize,
+                piece: usize,
+                inner: Enc,
+                inner_ok: bool,
+                want: Vec<u8>,
+                nest: bool,
+            }
+            impl<'a> NestRd<'a> {
+                fn poke(&mut self) {
+                    if !self.nest {
+                        return;
+                    }
+                    let mut out = Vec::new();
+                    let mut src: &[u8] = b"inner data 0123456789";
+                    let r = (self.inner)(&mut src, &mut out);
+                    if r.is_err() || out != self.want {
+                        self.inner_ok = false;
+                    }
+                }
+            }
+            impl<'a> Read for NestRd<'a> {
+                fn read(&mut self, b: &mut [u8]) -> io::Result<usize> {
+                    self.poke();
+                    let n = b.len().min(self.piece).min(self.data.len() - self.pos);
+                    b[..n].copy_from_slice(&self.data[self.pos..self.pos + n]);
+                    self.pos += n;
+                    Ok(n)
+                }
+            }
+            impl<'a> BufRead for NestRd<'a> {
+                fn fill_buf(&mut self) -> io::Result<&[u8]> {
+                    self.poke();
+                    let n = self.piece.min(self.data.len() - self.pos);
+                    Ok(&self.data[self.pos..self.pos + n])
+                }
+                fn consume(&mut self, n: usize) {
+                    self.pos += n;
+                }
+            }
+            struct NestWr {
+                out: Vec<u8>,
+                inner: Enc,
+                inner_ok: bool,
+                want: Vec<u8>,
+            }
+            impl Write for NestWr {
+                fn write(&mut self, b: &[u8]) -> io::Result<usize> {
+                    let mut o = Vec::new();
+                    let mut src: &[u8] = b"inner data 0123456789";
+                    let r = (self.inner)(&mut src, &mut o);
+                    if r.is_err() || o != self.want {
+                        self.inner_ok = false;
+                    }
+                    self.out.extend_from_slice(b);
+                    Ok(b.len())
+                }
+                fn flush(&mut self) -> io::Result<()> {
+                    Ok(())
+                }
+            }
+            let inputs: Vec<Vec<u8>> = vec![vec![], b"a".to_vec(), (0..300u32).map(|i| (i * 7) as u8).collect(), (0..70000u32).map(|i| (i.wrapping_mul(2654435761) >> 20) as u8).collect()];
+            let mut n = 0u64;
+            for (on, outer) in encs.iter() {
+                for (inn, inner) in encs.iter() {
+                    let mut want_inner = Vec::new();
+                    let mut src: &[u8] = b"inner data 0123456789";
+                    let _ = inner(&mut src, &mut want_inner);
+                    for x in &inputs {
+                        let mut plain = Vec::new();
+                        let mut src: &[u8] = x;
+                        let _ = outer(&mut src, &mut plain);
+                        for piece in [1usize, 4096, usize::MAX] {
+                            // (what the outer encoder emits for the same fragmentation without anything nested)
+                            let base = {
+                                let mut rd = NestRd { data: x, pos: 0, piece, inner: *inner, inner_ok: true, want: Vec::new(), nest: false };
+                                let mut out = Vec::new();
+                                let _ = outer(&mut rd, &mut out);
+                                out
+                            };
+                            for side in 0..2 {
+                                n += 1;
+                                ctx.eval(1);
+                                ctx.nontriv(1);
+                                crate::cases::IN_GUARD.with(|g| g.set(true));
+                                let res = std::panic::catch_unwind(std::panic::AssertUnwindSafe(|| {
+                                    if side == 0 {
+                                        let mut rd = NestRd { data: x, pos: 0, piece, inner: *inner, inner_ok: true, want: want_inner.clone(), nest: true };
+                                        let mut out = Vec::new();
+                                        let r = outer(&mut rd, &mut out);
+                                        (r.is_ok(), out, rd.inner_ok)
+                                    } else {
+                                        let mut wr = NestWr { out: Vec::new(), inner: *inner, inner_ok: true, want: want_inner.clone() };
+                                        let mut src: &[u8] = x;
+                                        // (the sink is a Vec-based type of its own; the outer encoder writes into it directly)
+                                        let r = match *on {
+                                            "lzma_compress" => lzma_rs::lzma_compress(&mut src, &mut wr),
+                                            "lzma2_compress" => lzma_rs::lzma2_compress(&mut src, &mut wr),
+                                            _ => lzma_rs::xz_compress(&mut src, &mut wr),
+                                        };
+                                        (r.is_ok(), wr.out, wr.inner_ok)
+                                    }
+                                }));
+                                crate::cases::IN_GUARD.with(|g| g.set(false));
+                                let problem = match res {
+                                    Err(_) => Some("panicked".to_string()),
+                                    Ok((ok, out, inner_ok)) => {
+                                        if !ok {
+                                            Some("the outer call returned Err".into())
+                                        } else if out != *(if side == 0 { &base } else { &plain }) {
+                                            Some("the outer call's output differs from its output for the same source and sink without the nested calls".into())
+                                        } else if !inner_ok {
+                                            Some("an inner call failed or produced other bytes than it does alone".into())
+                                        } else {
+                                            None
+                                        }
+                                    }
+                                };
+                                if let Some(pb) = problem {
+                                    ctx.violation_text(&format!("{} of {} bytes whose {} runs {} on 21 bytes at every call (pieces of {} bytes): {}", on, x.len(), if side == 0 { "source" } else { "sink" }, inn, if piece == usize::MAX { "unlimited".to_string() } else { piece.to_string() }, pb), json!({"outer": on, "inner": inn, "input_len": x.len(), "side": if side == 0 { "source" } else { "sink" }, "piece": piece as u64}));
+                                }
+                            }
+                        }
+                    }
+                }
+            }
+            ctx.scope_done(name, n, t0, "3 outer x 3 inner encoders x 4 inputs x 3 piece sizes, nested through the source and through the sink");
+        }
+    }
     // ---------------------------------------------------------------- inputs beyond 4 GiB: nothing is stored - a generated
     // source, a sink that keeps the running total and the last bytes. xz_compress: the index and the footer at the end
     // must describe the block that was actually written (sizes beyond 2^32); lzma2_compress: total = n + 3 per chunk + 1
